@@ -66,6 +66,23 @@ Check(e) ==
                  ELSE IF cs.err.l1 > 0 /\ ~(e.line >= cs.err.l1 /\ e.line <= cs.err.l2)
                       THEN "wrong-line:" \o cs.err.kind
                  ELSE ""
+      [] e.ev = "OutcomeType" ->
+            \* C09 outcome typing: a schema, a parser error, or an OS error -- nothing else
+            IF e.outcome \in {"accepted", "rejected", "oserror"} THEN ""
+            ELSE IF e.outcome = "hang" THEN "hang"
+            ELSE "raise:" \o e.what
+      [] e.ev = "OutcomeAcc" ->
+            \* outcome typing plus the exact acceptance verdict of the machine (several
+            \* violations may be present: which one is reported first is not compared)
+            IF ~(e.outcome \in {"accepted", "rejected", "oserror"})
+            THEN (IF e.outcome = "hang" THEN "hang" ELSE "raise:" \o e.what)
+            ELSE IF cs.status = "rejected" /\ cs.err.kind = "out-of-model" THEN "skip:out-of-model"
+            ELSE IF amb THEN "skip:ambiguous-dotted-path"
+            ELSE IF cs.status = "accepted" /\ e.outcome # "accepted" THEN "rejected-a-valid-schema:" \o e.what
+            ELSE IF cs.status = "rejected" /\ e.outcome = "accepted" THEN "accepted-an-invalid-schema:" \o cs.err.kind
+            ELSE ""
+      [] e.ev = "Render" ->
+            IF e.outcome \in {"ok", "renderer-error"} THEN "" ELSE "render-raise:" \o e.lang \o ":" \o e.what
       [] e.ev = "Cli" ->
             \* the command line: exit status and written files agree with the verdict
             IF cs.status = "rejected" /\ cs.err.kind = "out-of-model" THEN ""
